@@ -106,12 +106,20 @@ static void odd_keys(Stats &st, const Args &a) {
     for (const std::string &secret : {std::string(), pkey_to_pem(k->pkey, false), rawpub, std::string(1, '\0')})
       for (int prov = 0; prov < 2; prov++) cs.push_back({prov, jwk, hs, in + "." + b64u_enc(ref_hmac(secret, hi->md, in)), "hmac-token-against-" + k->name});
   }
+  // "a signature made with ... another algorithm": the key's own kind of signature under a header that names an algorithm of another
+  // family (ES256-style under EdDSA / RS256, EdDSA-style under ES256 ...), for every pair setkey admits
+  for (const KeySpec *k : KEYS) if (k->kind != K_OCT) for (int ai = 0; ai < NALGS; ai++) { const AlgInfo &hd = ALGS[ai]; if (hd.kind == k->kind || hd.kind == K_OCT) continue;
+    jwt_alg_t na = k->kind == K_RSA ? JWT_ALG_RS256 : k->kind == K_OKP ? JWT_ALG_EDDSA : k->bits == 384 ? JWT_ALG_ES384 : k->bits == 521 ? JWT_ALG_ES512 : k->crv == "secp256k1" ? JWT_ALG_ES256K : JWT_ALG_ES256;
+    JwkOpts o; o.priv = false; std::string jwk = jwk_json(*k, o), in = b64u_enc(std::string("{\"alg\":\"") + hd.name + "\",\"typ\":\"JWT\"}") + "." + b64u_enc("{\"sub\":\"mallory\"}");
+    std::string sg = ref_sign(*k, na, in); if (sg.empty()) continue;
+    for (int prov = 0; prov < 2; prov++) cs.push_back({prov, jwk, hd.name, in + "." + b64u_enc(sg), "native-signature-under-other-family-header-" + k->name});
+  }
   for (size_t i = 0; i < cs.size(); i++) {
     if ((int)(i % a.nworkers) != a.worker) continue;
     for (int route = 0; route < 2; route++) {
       int r = run_odd(cs[i], route); st.evaluations++; st.cls(r < 0 ? "odd-key:not-applicable" : r ? "odd-key:accepted" : "odd-key:rejected");
       if (r == 0) st.nontrivial(mix(fnv(cs[i].token), mix(fnv(cs[i].jwk), cs[i].prov * 2 + route)));
-      if (r == 1) { st.violation(std::string("C01:accepts-token-nobody-could-sign:") + (cs[i].what.rfind("rsa-public", 0) == 0 ? "rsa-made-up-modulus" : cs[i].what.rfind("hmac-token", 0) == 0 ? "hmac-token-under-asymmetric-key" : "flagged-item") + ":" + prov_name(cs[i].prov), "a token without a valid signature is accepted under " + cs[i].what, odd_json(cs[i])); return; }
+      if (r == 1) { st.violation(std::string("C01:accepts-token-nobody-could-sign:") + (cs[i].what.rfind("rsa-public", 0) == 0 ? "rsa-made-up-modulus" : cs[i].what.rfind("hmac-token", 0) == 0 ? "hmac-token-under-asymmetric-key" : cs[i].what.rfind("native-sig", 0) == 0 ? "native-signature-under-other-family-header" : "flagged-item") + ":" + prov_name(cs[i].prov), "a token without a valid signature is accepted under " + cs[i].what, odd_json(cs[i])); return; }
     }
   }
 }
